@@ -35,7 +35,7 @@ Print Assumptions C08_add_sources.
 
 (* ---- provenance of whole operations, all inputs (Proofs/ProvKeys.v, ProvNoDup.v, Contrib.v): exactly one
    non-empty entry per parameter and nothing else, every listed callable comes from an input, exactness
-   for consistently named inputs; the three cases where the statement is false of the faithful model are
+   for consistently named inputs; the two cases where the statement is false of the faithful model are
    refutations and reproduce on the implementation (see known_findings.json) ---- *)
 Theorem C08_merge_src_ok : forall (s0 s1 : sigT) (ss : list sigT) (r : sigT), merge (s0 :: s1 :: ss) = Ok r -> Forall src_ok (s0 :: s1 :: ss) -> src_ok r.
 Proof. exact @ProvKeys.merge_src_ok. Qed.
@@ -69,9 +69,13 @@ Theorem C08_forwards_src_ok : forall (o i : sigT) (n : nat) (names0 : list name)
 Proof. exact @ProvKeys.forwards_src_ok. Qed.
 Print Assumptions C08_forwards_src_ok.
 
-Theorem C08_sig_partial_src_ok : forall (s : sigT) (n : nat) (kw : list (name * N)) (pobj : N) (r : sigT), sig_partial s n kw pobj = Ok r -> valid_sig (params s) = true -> src_ok s -> (forall v : param, varargs (sort_params s) = Some v -> ~ In (pname v) (map fst kw)) -> src_ok r.
+Theorem C08_sig_partial_src_ok : forall (s : sigT) (n : nat) (kw : list (name * N)) (pobj : N) (r : sigT), sig_partial s n kw pobj = Ok r -> valid_sig (params s) = true -> src_ok s -> src_ok r.
 Proof. exact @ProvKeys.sig_partial_src_ok. Qed.
 Print Assumptions C08_sig_partial_src_ok.
+
+Theorem C08_mask_gen_src_ok : forall (s : sigT) (n : nat) (h : hideflags) (named0 : list (name * N)) (pm : pmode) (r : sigT), mask_gen s n h named0 pm = Ok r -> valid_sig (params s) = true -> src_ok s -> (pm <> None -> h_kwargs h || h_varkwargs h = false) -> src_ok r.
+Proof. exact @ProvKeys.mask_gen_src_ok. Qed.
+Print Assumptions C08_mask_gen_src_ok.
 
 Theorem C08_default_sources_ok : forall (f : N) (ps : list param) (rt : option N) (ur : uann) (d : depths), NoDup (names_of ps) -> src_ok {| params := ps; ret := rt; uret := ur; srcs := map (fun p : param => (pname p, [f])) ps; deps := d |}.
 Proof. exact @ProvKeys.default_sources_ok. Qed.
@@ -81,9 +85,11 @@ Theorem C08_embed_src_ok_refuted : exists s0 s1 s2 r : sigT, valid_sig (params s
 Proof. exact @ProvKeys.embed_src_ok_refuted. Qed.
 Print Assumptions C08_embed_src_ok_refuted.
 
-Theorem C08_sig_partial_keys_refuted : exists (s : sigT) (kw : list (name * N)) (pobj : N) (r : sigT), valid_sig (params s) = true /\ src_ok s /\ sig_partial s 0 kw pobj = Ok r /\ mem 9 (names_of (params r)) = true /\ src_mem (srcs r) 9 = false /\ ~ src_ok r.
-Proof. exact @ProvKeys.sig_partial_keys_refuted. Qed.
-Print Assumptions C08_sig_partial_keys_refuted.
+(* formerly C08_sig_partial_keys_refuted: partial(f, args=7, a=7) for f(a, *args, **kw) keeps the entry of
+   the new keyword-only `args` since the repair of _mask *)
+Theorem C08_sig_partial_star_named_keyword : exists r : sigT, sig_partial (dsig 100 [bp 1 PK; bp 9 VP; bp 10 VK]) 0 [(9, 7); (1, 7)] 200 = Ok r /\ names_of (params r) = [9; 1; 10] /\ map pkind (params r) = [KO; KO; VK] /\ srcs r = [(1, [100]); (9, [200]); (10, [100])] /\ src_ok r.
+Proof. exact @ProvKeys.sig_partial_star_named_keyword. Qed.
+Print Assumptions C08_sig_partial_star_named_keyword.
 
 Theorem C08_merge_nodup_refuted : exists a b r : sigT, src_ok a /\ src_ok b /\ (forall x : name, NoDup (src_get (srcs a) x)) /\ (forall x : name, NoDup (src_get (srcs b) x)) /\ merge [a; b] = Ok r /\ src_get (srcs r) 1 = [100; 100].
 Proof. exact @ProvKeys.merge_nodup_refuted. Qed.
